@@ -11,7 +11,7 @@ import common as C
 HASH_RE = re.compile(r"^RUN seed=(\d+) hash=([0-9a-f]+) .*?cfg=(\S+)", re.M)
 DIG_RE = re.compile(r'"digest":"([0-9a-f]+)"')
 
-DRIVERS = [("c03.cc", []), ("c40.cc", ["--mode", "table"]), ("c38.cc", []), ("c19.cc", ["--mode", "conc"]), ("c33.cc", ["--tolerate", "model-differs-after-fusestatic:*"]), ("c02.cc", []), ("c21t.cc", [])]
+DRIVERS = [("c03.cc", []), ("c40.cc", ["--mode", "table"]), ("c38.cc", []), ("c19.cc", ["--mode", "conc"]), ("c33.cc", ["--tolerate", "model-differs-after-fusestatic:*"]), ("c02.cc", []), ("c21t.cc", []), ("c31t.cc", [])]
 
 
 def digest(binary, seed0, n, args, cpu=None, env=None, faildir="/tmp"):
@@ -30,7 +30,7 @@ def run(argv):
     for src, args in DRIVERS:
         if not os.path.exists(os.path.join(C.VERIF, "drivers", src)):
             continue
-        per = max(4, nseeds // (12 if src in ("c02.cc", "c33.cc") else 60 if src == "c21t.cc" else 1))
+        per = max(4, nseeds // (12 if src in ("c02.cc", "c33.cc", "c31t.cc") else 60 if src == "c21t.cc" else 1))
         for variant in ("sim",):
             b = C.ensure_driver(variant, src)
             d1 = digest(b, 1000, per, args)
